@@ -1,7 +1,398 @@
--- C18: security estimate and acceptance policy (theorems; in progress)
+-- C18: security estimate and acceptance policy — property theorems about Winter/Model/Security.lean
+-- (helper lemmas: WinterProofs/Lemmas/C18.lean).  The model is tied to the code by the correspondence
+-- harness (harness/src/bin/c18.rs); the numeric limits come from Winter/Gen/Limits.lean, regenerated
+-- from air/src/options.rs and air/src/proof/mod.rs on every run.
 import Winter.Model.Security
+import Winter.Model.Field
+import WinterProofs.Lemmas.C18
 
 namespace C18
-open Model.Security
+open Model.Security Gen.Limits C18L
+
+-- =================================================================== 1. the options constructor
+/-- `ProofOptions::new` accepts exactly the documented parameter sets. -/
+theorem options_new_ok_iff (q b g : Nat) (e : Ext) (ff fr : Nat) (o : Options) :
+    Options.new q b g e ff fr = .ok o ↔
+      (1 ≤ q ∧ q ≤ 255 ∧ b ∈ [2, 4, 8, 16, 32, 64, 128] ∧ g ≤ 32 ∧ ff ∈ [2, 4, 8, 16] ∧
+        fr ∈ [0, 1, 3, 7, 15, 31, 63, 127, 255]) ∧ o = ⟨q, b, g, e, ff, fr⟩ := by
+  have hb : ∀ x, x ≤ 128 → ((isPow2 x = true ∧ 2 ≤ x) ↔ x ∈ [2, 4, 8, 16, 32, 64, 128]) := by decide +kernel
+  have hf : ∀ x, x ≤ 16 → ((isPow2 x = true ∧ 2 ≤ x) ↔ x ∈ [2, 4, 8, 16]) := by decide
+  have hr : ∀ x, x ≤ 255 → (isPow2 (x + 1) = true ↔ x ∈ [0, 1, 3, 7, 15, 31, 63, 127, 255]) := by decide +kernel
+  unfold Options.new
+  by_cases h : (⟨q, b, g, e, ff, fr⟩ : Options).accepted = true
+  · simp only [h, if_true, Res.ok.injEq]
+    unfold Options.accepted MAX_NUM_QUERIES MIN_BLOWUP_FACTOR MAX_BLOWUP_FACTOR MAX_GRINDING_FACTOR
+      FRI_MIN_FOLDING_FACTOR FRI_MAX_FOLDING_FACTOR FRI_MAX_REMAINDER_DEGREE at h
+    simp only [Bool.and_eq_true, decide_eq_true_eq] at h
+    obtain ⟨⟨⟨⟨⟨⟨⟨⟨⟨⟨h1, h2⟩, h3⟩, h4⟩, h5⟩, h6⟩, h7⟩, h8⟩, h9⟩, h10⟩, h11⟩ := h
+    constructor
+    · intro ho
+      exact ⟨⟨h1, h2, (hb b h5).mp ⟨h3, h4⟩, h6, (hf ff h9).mp ⟨h7, h8⟩, (hr fr h11).mp h10⟩, ho.symm⟩
+    · rintro ⟨_, rfl⟩; rfl
+  · simp only [h]
+    constructor
+    · intro ho; cases ho
+    · rintro ⟨⟨h1, h2, h3, h4, h5, h6⟩, _⟩
+      exfalso; apply h
+      have hb5 : b ≤ 128 := by
+        simp only [List.mem_cons, List.mem_nil_iff, or_false] at h3; omega
+      have hf5 : ff ≤ 16 := by
+        simp only [List.mem_cons, List.mem_nil_iff, or_false] at h5; omega
+      have hr5 : fr ≤ 255 := by
+        simp only [List.mem_cons, List.mem_nil_iff, or_false] at h6; omega
+      obtain ⟨b1, b2⟩ := (hb b hb5).mpr h3
+      obtain ⟨f1, f2⟩ := (hf ff hf5).mpr h5
+      have r1 := (hr fr hr5).mpr h6
+      unfold Options.accepted MAX_NUM_QUERIES MIN_BLOWUP_FACTOR MAX_BLOWUP_FACTOR MAX_GRINDING_FACTOR
+        FRI_MIN_FOLDING_FACTOR FRI_MAX_FOLDING_FACTOR FRI_MAX_REMAINDER_DEGREE
+      simp only [Bool.and_eq_true, decide_eq_true_eq]
+      exact ⟨⟨⟨⟨⟨⟨⟨⟨⟨⟨h1, h2⟩, b1⟩, b2⟩, hb5⟩, h4⟩, f1⟩, f2⟩, hf5⟩, r1⟩, hr5⟩
+
+example : Options.new 27 8 16 .quadratic 8 127 = .ok ⟨27, 8, 16, .quadratic, 8, 127⟩ := by decide
+
+-- =================================================================== 2. number of modulus bits
+/-- `Context::num_modulus_bits` is the bit length of the little-endian value of the modulus bytes,
+    for every byte string a proof can carry (at most 255 bytes; any length below 2^29 works), and
+    it never panics. -/
+theorem numModulusBits_eq_bitLength (bs : List Nat) (h : ∀ b ∈ bs, b < 256) (hl : bs.length * 8 < U32) :
+    numModulusBits bs = .ok (bitLen (leVal bs)) :=
+  numModulusBits_eq bs h hl
+
+/-- the three fields of the library have 62, 64 and 128 modulus bits -/
+theorem numModulusBits_fields :
+    numModulusBits (Model.leBytes 8 Gen.F62.M) = .ok 62 ∧
+    numModulusBits (Model.leBytes 8 Gen.F64.M) = .ok 64 ∧
+    numModulusBits (Model.leBytes 16 Gen.F128.M) = .ok 128 := by decide
+
+-- =================================================================== 3. conjectured estimate
+/-- the documented formula, over the integers (nothing is truncated):
+    min(min(field_bits·ext − log2(trace_length·blowup), q·log2(blowup) [+ grinding if ≥ 80]) − 1, cr) -/
+def documented (bits ext n blowup q g cr : Nat) : Int :=
+  let qs : Int := q * Nat.log2 blowup
+  min (min ((bits * ext : Int) - Nat.log2 (n * blowup)) (if 80 ≤ qs then qs + g else qs) - 1) cr
+
+/-- the parameter tuples on which `get_conjectured_security` is defined: options accepted by the
+    constructor, a non-empty trace whose LDE domain size fits a `usize`, a field size that fits a
+    `u32` and exceeds log2 of the LDE domain size -/
+def Admissible (o : Options) (bits n : Nat) : Prop :=
+  o.accepted = true ∧ conjGuard o bits n
+
+/-- ★ the conjectured level equals the documented formula for every admissible parameter tuple -/
+theorem conjectured_eq_documented {o : Options} {bits n : Nat} (cr : Nat) (h : Admissible o bits n) :
+    ∃ l, conjectured o bits n cr = .ok l ∧
+      (l : Int) = documented bits o.ext.degree n o.blowup o.numQueries o.grinding cr := by
+  obtain ⟨ho, hg⟩ := h
+  refine ⟨conjValue o bits n cr, (conjectured_ok_iff ho bits n cr _).mpr ⟨hg, rfl⟩, ?_⟩
+  obtain ⟨_, _, _, h⟩ := hg
+  obtain ⟨hq1, _, _, _, _, hl1, _⟩ := accepted_bounds ho
+  have hqs1 : 1 ≤ o.numQueries * o.blowup.log2 := Nat.mul_le_mul hq1 hl1
+  unfold conjValue documented
+  have hG : GRINDING_CONTRIBUTION_FLOOR = 80 := rfl
+  simp only [hG, ← Int.natCast_mul]
+  rw [Nat.mul_comm o.blowup.log2 o.numQueries]
+  generalize o.numQueries * o.blowup.log2 = qs at *
+  generalize bits * o.ext.degree = fs at *
+  generalize (n * o.blowup).log2 = L at *
+  obtain ⟨d, rfl⟩ := Nat.exists_eq_add_of_lt h
+  have hd : L + d + 1 - L = d + 1 := by omega
+  rw [hd]
+  split <;> rename_i h80
+  · have : (80 : Int) ≤ (qs : Int) := by omega
+    simp only [this, if_true]
+    omega
+  · have : ¬ (80 : Int) ≤ (qs : Int) := by omega
+    simp only [this, if_false]
+    omega
+
+example : Admissible ⟨27, 8, 16, .quadratic, 8, 127⟩ 64 (2 ^ 20) := by
+  unfold Admissible conjGuard; decide
+
+/-- ★ the exact guard: for options the constructor accepts, `get_conjectured_security` panics
+    (an integer operation over/underflows, or `ilog2(0)`) exactly when the tuple is not admissible:
+    `bits·ext ≥ 2^32`, `trace_length·blowup ≥ 2^64`, `trace_length = 0`, or
+    `bits·ext ≤ log2(trace_length·blowup)` -/
+theorem conjectured_panics_iff {o : Options} (ho : o.accepted = true) (bits n cr : Nat) :
+    (∃ s, conjectured o bits n cr = .panic s) ↔ ¬ conjGuard o bits n := by
+  constructor
+  · rintro ⟨s, hs⟩ hg
+    have := (conjectured_ok_iff ho bits n cr _).mpr ⟨hg, rfl⟩
+    rw [hs] at this; cases this
+  · intro hg
+    cases h : conjectured o bits n cr with
+    | ok l => exact absurd ((conjectured_ok_iff ho bits n cr l).mp h).1 hg
+    | panic s => exact ⟨s, rfl⟩
+
+/-- ★ never underflows for parameters the constructors accept: options accepted by
+    `ProofOptions::new`, a trace length / LDE domain size accepted by `Context::new`
+    (`trace_length·blowup ≤ u32::MAX`) and any field of at least 32 bits (62, 64, 128 in the library;
+    `num_modulus_bits` is at most 2040) -/
+theorem conjectured_no_underflow {o : Options} {bits n : Nat} (cr : Nat) (ho : o.accepted = true)
+    (hn : 0 < n) (hlde : n * o.blowup ≤ 4294967295) (hb1 : 32 ≤ bits) (hb2 : bits ≤ 2040) :
+    ∃ l, conjectured o bits n cr = .ok l := by
+  have ⟨d1, d2⟩ := ext_degree_bounds o.ext
+  have hne : n * o.blowup ≠ 0 := by
+    obtain ⟨_, _, _, hb, _⟩ := accepted_bounds ho
+    exact Nat.mul_ne_zero (by omega) (by omega)
+  have hl : (n * o.blowup).log2 < 32 := (Nat.log2_lt hne).mpr (by omega)
+  have h1 : bits * o.ext.degree ≤ 2040 * 3 := Nat.mul_le_mul hb2 d2
+  have h2 : 32 * 1 ≤ bits * o.ext.degree := Nat.mul_le_mul hb1 d1
+  obtain ⟨l, hl', _⟩ := conjectured_eq_documented cr
+    (show Admissible o bits n from ⟨ho, by unfold U32; omega, by unfold USIZE; omega, hn, by omega⟩)
+  exact ⟨l, hl'⟩
+
+/-- proofs are read from bytes without the `Context::new` guard: a trace length of 2^62 with the
+    62-bit field is outside the admissible range and the estimate panics (u32 underflow) -/
+theorem conjectured_underflow_witness :
+    conjectured ⟨1, 2, 0, .none, 2, 0⟩ 62 (2 ^ 62) 128 = .panic "u32-sub-overflow" := by decide
+
+/-- ★ monotone (non-decreasing, and defined whenever the smaller tuple is) in the number of
+    queries, the grinding factor, the extension degree and the collision resistance — jointly,
+    hence in each separately — for all admissible values -/
+theorem conjectured_mono {o o' : Options} {bits n cr cr' l : Nat}
+    (ho : o.accepted = true) (ho' : o'.accepted = true) (hb : o.blowup = o'.blowup)
+    (hq : o.numQueries ≤ o'.numQueries) (hg : o.grinding ≤ o'.grinding)
+    (he : o.ext.degree ≤ o'.ext.degree) (hcr : cr ≤ cr') (hbits : bits * o'.ext.degree < U32)
+    (h : conjectured o bits n cr = .ok l) :
+    ∃ l', conjectured o' bits n cr' = .ok l' ∧ l ≤ l' := by
+  obtain ⟨G, rfl⟩ := (conjectured_ok_iff ho bits n cr l).mp h
+  obtain ⟨G', hv⟩ := conj_mono_core hb hq hg he hcr hbits G
+  exact ⟨_, (conjectured_ok_iff ho' bits n cr' _).mpr ⟨G', rfl⟩, hv⟩
+
+example : conjectured ⟨27, 8, 16, .quadratic, 8, 127⟩ 64 (2 ^ 20) 128 = .ok 96 := by decide
+example : conjectured ⟨28, 8, 17, .cubic, 8, 127⟩ 64 (2 ^ 20) 128 = .ok 100 := by decide
+
+/-- ★ `Proof::security_level(conjectured = true)` of a context: the documented formula evaluated
+    at the bit length of the modulus the context carries -/
+theorem securityLevel_conjectured {o : Options} {bytes : List Nat} {n : Nat} (cr : Nat)
+    (hby : ∀ b ∈ bytes, b < 256) (hlen : bytes.length ≤ 255)
+    (h : Admissible o (bitLen (leVal bytes)) n) :
+    ∃ l, securityLevel o bytes n cr true = .ok l ∧
+      (l : Int) = documented (bitLen (leVal bytes)) o.ext.degree n o.blowup o.numQueries o.grinding cr := by
+  obtain ⟨l, h1, h2⟩ := conjectured_eq_documented cr h
+  refine ⟨l, ?_, h2⟩
+  unfold securityLevel
+  rw [numModulusBits_eq bytes hby (by unfold U32; omega)]
+  simpa [bind, Res.bind] using h1
+
+-- =================================================================== 4. acceptance policy
+/-- ★ `MinConjecturedSecurity(m)`: rejects iff the level is below `m` (and then reports both) -/
+theorem validate_minConjectured (m : Nat) (o : Options) (level : Bool → Res Nat) (l : Nat)
+    (hl : level true = .ok l) :
+    (validate (.minConjectured m) o level = .reject (.insufficientConjecturedSecurity m l) ↔ l < m) ∧
+    (validate (.minConjectured m) o level = .pass ↔ m ≤ l) := by
+  unfold validate; simp only [hl]
+  by_cases h : l < m <;> simp [h] <;> omega
+
+/-- ★ `MinProvenSecurity(m)`: rejects iff the proven level is below `m` -/
+theorem validate_minProven (m : Nat) (o : Options) (level : Bool → Res Nat) (l : Nat)
+    (hl : level false = .ok l) :
+    (validate (.minProven m) o level = .reject (.insufficientProvenSecurity m l) ↔ l < m) ∧
+    (validate (.minProven m) o level = .pass ↔ m ≤ l) := by
+  unfold validate; simp only [hl]
+  by_cases h : l < m <;> simp [h] <;> omega
+
+/-- ★ `OptionSet(s)`: rejects iff the proof's options (all six stored fields) are not in the set;
+    the security level is not consulted and nothing can panic -/
+theorem validate_optionSet (s : List Options) (o : Options) (level : Bool → Res Nat) :
+    (validate (.optionSet s) o level = .pass ↔ o ∈ s) ∧
+    (validate (.optionSet s) o level = .reject .unacceptableProofOptions ↔ o ∉ s) := by
+  unfold validate
+  have : (s.any (· == o)) = true ↔ o ∈ s := by
+    simp only [List.any_eq_true, beq_iff_eq]
+    constructor
+    · rintro ⟨x, hx, rfl⟩; exact hx
+    · intro h; exact ⟨o, h, rfl⟩
+  by_cases h : o ∈ s
+  · simp [this.mpr h, h]
+  · have h' : ¬ (s.any (· == o)) = true := fun c => h (this.mp c)
+    simp [h', h]
+
+/-- `validate` panics only if the level computation it needs panics -/
+theorem validate_panic_only_from_level (a : Acceptable) (o : Options) (level : Bool → Res Nat) (s : String)
+    (h : validate a o level = .panic s) : level true = .panic s ∨ level false = .panic s := by
+  unfold validate at h
+  cases a with
+  | minConjectured m =>
+    cases hl : level true with
+    | ok l => simp only [hl] at h; split at h <;> cases h
+    | panic t => simp only [hl] at h; injection h with h; left; rw [h]
+  | minProven m =>
+    cases hl : level false with
+    | ok l => simp only [hl] at h; split at h <;> cases h
+    | panic t => simp only [hl] at h; injection h with h; right; rw [h]
+  | optionSet set => simp only [] at h; split at h <;> cases h
+
+-- =================================================================== 5. the top of verify()
+/-- ★ a proof whose modulus bytes differ from the AIR's field is refused with
+    `InconsistentBaseField` — an error, not a panic — whatever else it contains and whatever the
+    policy: nothing runs before this check -/
+theorem verifyTop_field_mismatch (a : Acceptable) (v : VerifierSide) (p : ProofHead)
+    (h : v.modulusBytes ≠ p.modulusBytes) :
+    verifyTop a v p = .reject .inconsistentBaseField := by
+  unfold verifyTop fieldCheck
+  have : (v.modulusBytes != p.modulusBytes) = true := by simpa using h
+  simp [this, seqOut]
+
+/-- ★ for a proof over the AIR's field the policy check comes next: whatever it answers other than
+    `pass` (a refusal, or a panic of the level computation) is the result of `verify`; in
+    particular `context.to_elements()`, `AIR::new` and the extension check run only after it -/
+theorem verifyTop_policy_first (a : Acceptable) (v : VerifierSide) (p : ProofHead)
+    (h : v.modulusBytes = p.modulusBytes) (hp : policyCheck a v p ≠ .pass) :
+    verifyTop a v p = policyCheck a v p := by
+  unfold verifyTop fieldCheck
+  have : (v.modulusBytes != p.modulusBytes) = false := by simp [h]
+  simp only [this, seqOut]
+  cases hc : policyCheck a v p with
+  | pass => exact absurd hc hp
+  | reject e => rfl
+  | panic s => rfl
+
+/-- ★ the verifier refuses every proof whose parameters imply a conjectured level below the
+    caller's minimum: with the level computed from the computation's own field (the claimed modulus
+    is the AIR's), the documented formula below `m` gives `InsufficientConjecturedSecurity` -/
+theorem verifyTop_refuses_low_conjectured (m : Nat) (v : VerifierSide) (p : ProofHead)
+    (h : v.modulusBytes = p.modulusBytes) (hby : ∀ b ∈ p.modulusBytes, b < 256)
+    (hlen : p.modulusBytes.length ≤ 255)
+    (hadm : Admissible p.options (bitLen (leVal v.modulusBytes)) p.traceLen)
+    (hlow : documented (bitLen (leVal v.modulusBytes)) p.options.ext.degree p.traceLen p.options.blowup
+      p.options.numQueries p.options.grinding v.cr < m) :
+    ∃ l, verifyTop (.minConjectured m) v p = .reject (.insufficientConjecturedSecurity m l) ∧ l < m := by
+  rw [h] at hadm hlow
+  obtain ⟨l, h1, h2⟩ := securityLevel_conjectured v.cr hby hlen hadm
+  have hlm : l < m := by omega
+  have hpol : policyCheck (.minConjectured m) v p = .reject (.insufficientConjecturedSecurity m l) :=
+    (validate_minConjectured m p.options _ l h1).1.mpr hlm
+  refine ⟨l, ?_, hlm⟩
+  rw [verifyTop_policy_first _ v p h (by rw [hpol]; simp), hpol]
+
+/-- ★ and every proof whose options are not in the caller's set -/
+theorem verifyTop_refuses_foreign_options (s : List Options) (v : VerifierSide) (p : ProofHead)
+    (h : v.modulusBytes = p.modulusBytes) (hs : p.options ∉ s) :
+    verifyTop (.optionSet s) v p = .reject .unacceptableProofOptions := by
+  have hpol : policyCheck (.optionSet s) v p = .reject .unacceptableProofOptions :=
+    (validate_optionSet s p.options _).2.mpr hs
+  rw [verifyTop_policy_first _ v p h (by rw [hpol]; simp), hpol]
+
+/-- control reaches `perform_verification` only for a proof over the AIR's field that passed the
+    policy -/
+theorem verifyTop_pass_imp (a : Acceptable) (v : VerifierSide) (p : ProofHead)
+    (h : verifyTop a v p = .pass) : v.modulusBytes = p.modulusBytes ∧ policyCheck a v p = .pass := by
+  by_cases hm : v.modulusBytes = p.modulusBytes
+  · refine ⟨hm, ?_⟩
+    by_cases hp : policyCheck a v p = .pass
+    · exact hp
+    · rw [verifyTop_policy_first a v p hm hp] at h; exact absurd h hp
+  · rw [verifyTop_field_mismatch a v p hm] at h; cases h
+
+/-- the defect of the original snapshot (repaired by /repo commit a6dbf5c, kept as a witness): with
+    the field comparison last, a proof claiming the 128-bit field against the 64-bit AIR panicked in
+    `context.to_elements()`, and one claiming a one-byte zero modulus in the level computation -/
+theorem verifyTopOld_panics :
+    verifyTopOld (.minConjectured 0) ⟨Model.leBytes 8 Gen.F64.M, 8, true, true, 128, true⟩
+      ⟨Model.leBytes 16 Gen.F128.M, ⟨8, 8, 2, .none, 4, 7⟩, 16⟩ = .panic "from_bytes_with_padding assertion" ∧
+    verifyTopOld (.minConjectured 0) ⟨Model.leBytes 8 Gen.F64.M, 8, true, true, 128, true⟩
+      ⟨[0], ⟨8, 8, 2, .none, 4, 7⟩, 16⟩ = .panic "u32-sub-overflow" := by decide
+
+-- =================================================================== 6. proven estimate
+/-- Full-strength statement for the f64 code (not proved: Lean's `Float` is opaque to the kernel,
+    nothing about IEEE rounding or libm can be derived): the proven estimate over doubles is monotone
+    in queries, grinding, extension degree and collision resistance. -/
+def ProvenMonotoneFloat : Prop :=
+  ∀ (o o' : Options) (bits n cr cr' l : Nat),
+    o.accepted = true → o'.accepted = true → o.blowup = o'.blowup →
+    o.numQueries ≤ o'.numQueries → o.grinding ≤ o'.grinding → o.ext.degree ≤ o'.ext.degree →
+    cr ≤ cr' → cr' < U32 → bits * o'.ext.degree < U32 →
+    proven (R := Float) o bits n cr = .ok l → ∃ l', proven (R := Float) o' bits n cr' = .ok l' ∧ l ≤ l'
+
+/-- ◐ the part that is proved, for the generic model (any carrier `R` and primitives): under the
+    named laws `FloatLaws` of the primitives (monotone casts, `log2`, subtraction/addition, `powf`
+    antitone in the exponent for a base in [0, 1]) and the side condition that the base
+    `1 − theta_plus` of the query-phase power lies in [0, 1] for every candidate `m`, the estimate is
+    monotone in queries, grinding, extension degree and collision resistance (jointly), and defined
+    whenever the smaller tuple is.  Missing for `ProvenMonotoneFloat`: `FloatLaws Float (· ≤ ·)` and
+    the side condition — gap "floating-point rounding"; the side condition is evaluated by the
+    driver over the whole (blowup × trace length × m) grid (op `alpha`, a computation), and
+    monotonicity of the f64 code is checked between neighbouring tuples by the harness. -/
+theorem proven_mono_partial {R : Type} [F : FloatOps R] {le : R → R → Prop} (L : FloatLaws R le)
+    {o o' : Options} {bits n cr cr' l : Nat}
+    (hb : o.blowup = o'.blowup) (hq : o.numQueries ≤ o'.numQueries) (hg : o.grinding ≤ o'.grinding)
+    (he : o.ext.degree ≤ o'.ext.degree) (hcr : cr ≤ cr') (hcr' : cr' < U32)
+    (hbits : bits * o'.ext.degree < U32)
+    (side : ∀ m ∈ mRange (R := R) n,
+      le (F.ofNat 0) (mid (R := R) o.blowup (n * o.blowup) n m).base ∧
+      le (mid (R := R) o.blowup (n * o.blowup) n m).base (F.ofNat 1))
+    (h : proven (R := R) o bits n cr = .ok l) :
+    ∃ l', proven (R := R) o' bits n cr' = .ok l' ∧ l ≤ l' := by
+  obtain ⟨⟨g1, g2⟩, hne⟩ := proven_ok_guard h
+  have G' : provenGuard o' bits n := ⟨hbits, hb ▸ g2⟩
+  obtain ⟨m1, hm1, e1, _⟩ := proven_char (R := R) o bits n cr ⟨g1, g2⟩ hne
+  obtain ⟨m2, _, e2, max2⟩ := proven_char (R := R) o' bits n cr' G' hne
+  rw [e1] at h; injection h with h
+  refine ⟨_, e2, ?_⟩
+  have k1 : keyOf R o bits n m1 ≤ keyOf R o' bits n m1 := by
+    unfold keyOf
+    rw [← hb]
+    obtain ⟨s0, s1⟩ := side m1 hm1
+    exact provenTail_mono L _ (Nat.mul_le_mul_left _ he) hq hg s0 s1
+  have k2 := max2 m1 hm1
+  subst h
+  have a1 : min (keyOf R o bits n m1) cr < U32 := by omega
+  have a2 : min (keyOf R o' bits n m2) cr' < U32 := by omega
+  rw [Nat.mod_eq_of_lt a1, Nat.mod_eq_of_lt a2]
+  omega
+
+/-- the proven estimate never exceeds the collision resistance -/
+theorem proven_le_cr {R : Type} [F : FloatOps R] {o : Options} {bits n cr l : Nat} (hcr : cr < U32)
+    (h : proven (R := R) o bits n cr = .ok l) : l ≤ cr := by
+  obtain ⟨g, hne⟩ := proven_ok_guard h
+  obtain ⟨m, _, e, _⟩ := proven_char (R := R) o bits n cr g hne
+  rw [e] at h; injection h with h
+  subst h
+  have : min (keyOf R o bits n m) cr < U32 := by omega
+  rw [Nat.mod_eq_of_lt this]; omega
+
+/-- non-vacuity of the hypotheses of `proven_mono_partial`: a toy instance (floor arithmetic on the
+    naturals, `powf a y = a ^ y`) satisfies every law, and its base lies in [0, 1] -/
+@[instance_reducible] def natOps : FloatOps Nat where
+  ofNat := id
+  c05 := 0
+  c15 := 1
+  c025 := 0
+  add := (· + ·)
+  sub := (· - ·)
+  mul := (· * ·)
+  div := (· / ·)
+  neg := fun _ => 0
+  log2 := Nat.log2
+  sqrt := Nat.sqrt
+  ceil := id
+  powf := fun a y => a ^ y
+  toU64 := fun x => min x 18446744073709551615
+  toU32 := fun x => min x 4294967295
+
+theorem natOps_laws : @FloatLaws Nat natOps (· ≤ ·) := by
+  have hlog : ∀ {x y : Nat}, x ≤ y → Nat.log2 x ≤ Nat.log2 y := by
+    intro x y h
+    by_cases hx : x = 0
+    · subst hx; simp [Nat.log2_zero]
+    · have hy : y ≠ 0 := by omega
+      exact (Nat.le_log2 hy).mpr (Nat.le_trans (Nat.log2_self_le hx) h)
+  have hpow : ∀ {a x y : Nat}, 0 ≤ a → a ≤ 1 → x ≤ y → a ^ y ≤ a ^ x := by
+    intro a x y _ h1 h
+    rcases Nat.le_one_iff_eq_zero_or_eq_one.mp h1 with rfl | rfl
+    · by_cases hy : y = 0
+      · subst hy
+        have : x = 0 := by omega
+        subst this; exact Nat.le_refl _
+      · rw [Nat.zero_pow (Nat.pos_of_ne_zero hy)]; exact Nat.zero_le _
+    · rw [Nat.one_pow, Nat.one_pow]; exact Nat.le_refl _
+  have hcast : ∀ {x y : Nat}, x ≤ y → min x 18446744073709551615 ≤ min y 18446744073709551615 := by
+    intro x y h; omega
+  exact @FloatLaws.mk Nat natOps (· ≤ ·) (fun h => h) (fun z h => Nat.sub_le_sub_right h z)
+    (fun z h => Nat.sub_le_sub_left h z) (fun z h => Nat.add_le_add_left h z) hlog hpow hcast
+
+example : ∀ m ∈ @mRange Nat natOps 64,
+    (@FloatOps.ofNat Nat natOps 0) ≤ (@mid Nat natOps 8 (64 * 8) 64 m).base ∧
+    (@mid Nat natOps 8 (64 * 8) 64 m).base ≤ (@FloatOps.ofNat Nat natOps 1) := by decide
 
 end C18
